@@ -25,22 +25,36 @@ def specSetTag (t : Int) (idx : List Nat) (a : RA) : RA :=
 def specRemoveProperty (nm : String) (a : RA) : RA :=
   { dflt := eraseKey a.dflt nm, recs := a.recs.map (fun r => eraseKey r nm) }
 
-/-- `add_property(nm, default, data, stride)` -/
+/-- the default `add_property` records: the given one, else the old one, else 0 -/
+def specAddDv (a : RA) (nm : String) (dflt? : Option Int) : Int :=
+  match dflt? with
+  | some v => v
+  | none => if (recKeys a.dflt).contains nm then (lookupD a.dflt nm []).headD 0 else 0
+
+/-- the stride after `add_property`: an existing property keeps its stride -/
+def specAddStride (a : RA) (nm : String) (stride : Nat) : Nat :=
+  if (recKeys a.dflt).contains nm then (lookupD a.dflt nm []).length else stride
+
+/-- the records after `add_property` without data: a new field everywhere -/
+def specAddNoData (a : RA) (nm : String) (drow : List Int) : List Rec :=
+  if (recKeys a.dflt).contains nm then a.recs else a.recs.map (fun r => r ++ [(nm, drow)])
+
+/-- `add_property(nm, default, data, stride)`: the default row of `nm` is
+(re)written; without data a new field is appended to every record; with data
+the field of record `k` becomes row `k` of the data, and an array without
+records gets one record per row of the data (the other fields at their defaults) -/
 def specAddProperty (nm : String) (dflt? : Option Int) (data? : Option (List Int)) (stride : Nat)
     (a : RA) : RA :=
-  let present := (recKeys a.dflt).contains nm
-  let s' := if present then (lookupD a.dflt nm []).length else stride
-  let dv : Int := match dflt? with
-    | some v => v
-    | none => if present then (lookupD a.dflt nm []).headD 0 else 0
-  let drow := List.replicate s' dv
+  let drow := List.replicate (specAddStride a nm stride) (specAddDv a nm dflt?)
   let dflt' := setKey a.dflt nm drow
   match data? with
-  | none => ⟨dflt', if present then a.recs else a.recs.map (fun r => r ++ [(nm, drow)])⟩
-  | some [] => ⟨dflt', if present then a.recs else a.recs.map (fun r => r ++ [(nm, drow)])⟩
+  | none => ⟨dflt', specAddNoData a nm drow⟩
+  | some [] => ⟨dflt', specAddNoData a nm drow⟩
   | some d =>
-    if a.recs.length = 0 then ⟨dflt', (rowsOf s' d).map (fun row => setField dflt' nm row)⟩
-    else ⟨dflt', List.zipWith (fun r row => setField r nm row) a.recs (rowsOf s' d)⟩
+    if a.recs.length = 0 then
+      ⟨dflt', (rowsOf (specAddStride a nm stride) d).map (fun row => setField dflt' nm row)⟩
+    else ⟨dflt', List.zipWith (fun r row => setField r nm row) a.recs
+      (rowsOf (specAddStride a nm stride) d)⟩
 
 /-- `set(nm=data)` on a property: the leading part of the column is overwritten -/
 def specSetProp (nm : String) (d : List Int) (a : RA) : RA :=
@@ -56,11 +70,14 @@ def specSetProp (nm : String) (d : List Int) (a : RA) : RA :=
 cloned name with the source's default row -/
 def specCloneStep (a : RA) (acc : Rec) (nm : String) : Rec := setKey acc nm (lookupD a.dflt nm [])
 
+/-- the names `extract_particles` / `empty_clone` copy: the given list, else every field -/
+def specNames (props : Option (List String)) (a : RA) : List String :=
+  match props with
+  | some ps => ps
+  | none => recKeys a.dflt
+
 def specEmptyClone (props : Option (List String)) (a : RA) : RA :=
-  let names := match props with
-    | some ps => ps
-    | none => recKeys a.dflt
-  ⟨names.foldl (specCloneStep a) baseDflt, []⟩
+  ⟨(specNames props a).foldl (specCloneStep a) baseDflt, []⟩
 
 /-- the fields of `b` that `a` does not have -/
 def missingFields (a b : Rec) : Rec := b.filter (fun f => !(recKeys a).contains f.1)
@@ -83,12 +100,15 @@ def specEnsureStep (b : RA) (acc : RA) (nm : String) : RA :=
   else ⟨acc.dflt ++ [(nm, lookupD b.dflt nm [])],
         acc.recs.map (fun r => r ++ [(nm, lookupD b.dflt nm [])])⟩
 
+/-- `props if props else src.properties.keys()` -/
+def specEnsureNames (props : Option (List String)) (b : RA) : List String :=
+  match props with
+  | some [] => recKeys b.dflt
+  | some ps => ps
+  | none => recKeys b.dflt
+
 def specEnsure (props : Option (List String)) (a b : RA) : RA :=
-  let names := match props with
-    | some [] => recKeys b.dflt
-    | some ps => ps
-    | none => recKeys b.dflt
-  names.foldl (specEnsureStep b) a
+  (specEnsureNames props b).foldl (specEnsureStep b) a
 
 /-! ### operations that do not touch the records -/
 
